@@ -515,6 +515,19 @@ def run_parser_matrix(rep):
                           '%s %s))(assert true)' % (
                               ret, operands[k1],
                               'c03_v' if ret == 'Int' else operands[k1])))
+    # applications of definitions: the term has the declared result sort,
+    # whatever the argument was coerced from
+    for body in ('c03_v', '(ite p c03_v r)', '(+ c03_v 0.5)',
+                 '(ite (= c03_v r) r c03_v)'):
+        dfn = '(define-fun c03_id ((c03_v Real)) Real %s)' % body
+        for k1 in operands:
+            forms.append(('apply-def', (k1, 'RV'),
+                          dfn + '(assert (= (c03_id %s) (c03_id %s)))' % (
+                              operands[k1], operands[k1])))
+            for k2 in ('IV', 'IC', 'RV', 'IK'):
+                forms.append(('apply-def-cmp', (k2, k1),
+                              dfn + '(assert (< %s (c03_id %s)))' % (
+                                  operands[k2], operands[k1])))
     for i, (op, kinds, text) in enumerate(forms):
         if i % rep.nshards != rep.shard:
             continue
@@ -569,6 +582,13 @@ def run_parser_matrix(rep):
             try:
                 B.typeof(B.describe(f))
                 rep.count('parser_matrix_well_typed')
+                if op == 'apply-def' and B.typeof(
+                        B.describe(f.arg(0))) != B.REAL:
+                    rep.violation(
+                        'C03/parser/definition-result-sort',
+                        'the application in %s has sort %s, the definition '
+                        'declares Real' % (text, f.arg(0).get_type()),
+                        {'text': full})
             except B.IllTyped as e:
                 rep.violation('C03/parser/ill-typed-result/%s' % op,
                               '%s parsed into an ill-typed formula: %s' % (
